@@ -435,6 +435,9 @@ func runProperty(repo, mirror, id string, timeout int, tier string) *checkResult
 	for _, g := range gens {
 		g.Finalize()
 	}
+	for k := range p.UsedPureDynamic {
+		res.assumptions["calls through the callback field "+k+" are assumed not to write the heap (pure-dynamic directive)"] = true
+	}
 	sort.Strings(res.funcs)
 	return res
 }
